@@ -1,6 +1,10 @@
 """Records (class models), ghost state, aliases and assumed contracts shared by all properties."""
 from pyvc.api import REG, record, external, contract, spec, axiom
 
+import fnmatch as _fnmatch
+import libcst as _cst
+REG.spec_globals = {"fnmatch": _fnmatch, "cst": _cst}
+
 # ---- ghost state ---------------------------------------------------------------------------------
 REG.ghosts = {
     "fs": "map[Opaque, bytes]",          # content of every path (total map)
@@ -47,3 +51,31 @@ record("codemodder.codemods.libcst_transformer.LibcstResultTransformer", kind="r
 # ---- pathlib (opaque values; assumed contracts) ----------------------------------------------------------
 external("opaque.relative_to", params={"self": "Opaque", "other": "Opaque"}, returns="Opaque", pure=True,
          exsures=[("ValueError", None)], note="Path.relative_to: pure function of both paths; ValueError unless other is a parent")
+record("core_codemods.sonar.results.SonarResult", kind="ref", fields={}, bases=["codemodder.result.SASTResult"])
+record("core_codemods.defectdojo.results.DefectDojoResult", kind="ref", fields={}, bases=["codemodder.result.SASTResult"])
+
+# ---- result sets: dict subclasses modelled as dict values with a nominal class tag (methods resolve through the real MRO)
+REG.aliases["ResultSet"] = ("dict[str, dict[Path, list[Result]]]", "codemodder.result.ResultSet")
+REG.aliases["SonarResultSet"] = ("dict[str, dict[Path, list[Result]]]", "core_codemods.sonar.results.SonarResultSet")
+REG.aliases["SemgrepResultSet"] = ("dict[str, dict[Path, list[Result]]]", "codemodder.semgrep.SemgrepResultSet")
+REG.aliases["InternalSemgrepResultSet"] = ("dict[str, dict[Path, list[Result]]]", "codemodder.semgrep.InternalSemgrepResultSet")
+REG.aliases["CodeQLResultSet"] = ("dict[str, dict[Path, list[Result]]]", "codemodder.codeql.CodeQLResultSet")
+REG.aliases["DefectDojoResultSet"] = ("dict[str, dict[Path, list[Result]]]", "core_codemods.defectdojo.results.DefectDojoResultSet")
+
+# ---- execution context / codemods ------------------------------------------------------------------------
+record("codemodder.context.CodemodExecutionContext", kind="ref",
+       fields={"directory": "Path", "dry_run": "bool", "verbose": "bool", "path_include": "list[str]", "path_exclude": "list[str]",
+               "max_workers": "int", "tool_result_files_map": "dict[str, list[str]]",
+               "_changesets_by_codemod": "dict[str, list[ChangeSet]]", "_failures_by_codemod": "dict[str, list[Path]]",
+               "_unfixed_findings_by_codemod": "dict[str, list[UnfixedFinding]]", "dependencies": "dict[str, set[Opaque]]",
+               "_dependency_update_by_codemod": "dict[str, Opaque]", "registry": "Opaque", "repo_manager": "Opaque",
+               "providers": "Opaque", "timer": "Opaque", "semgrep_prefilter_results": "ResultSet | None"})
+record("codemodder.codemods.base_transformer.BaseTransformerPipeline", kind="ref", fields={"transformers": "list[Opaque]"})
+record("codemodder.codemods.base_codemod.BaseCodemod", kind="ref",
+       fields={"_metadata": "Opaque", "detector": "Opaque", "transformer": "BaseTransformerPipeline",
+               "default_extensions": "list[str] | None", "provider": "str | None"})
+record("codemodder.codemods.base_codemod.RemediationCodemod", kind="ref", fields={"requested_rules": "list[str]"},
+       bases=["codemodder.codemods.base_codemod.BaseCodemod"])
+
+external("fnmatch.fnmatch", params={"name": "str", "pat": "str"}, returns="bool", pure=True,
+         note="fnmatch.fnmatch: pure total predicate fnm(name, pattern); nothing assumed beyond purity")
